@@ -448,12 +448,49 @@ def changed_anchor_files(anchors):
     fp = os.path.join(VERIF, "harness", "fingerprints.json")
     known = json.load(open(fp)) if os.path.exists(fp) else {}
     out = []
-    for rel in anchors:
+    for rel in import_closure(anchors):
         p = os.path.join(REPO, rel)
         cur = ast_fingerprint(p) if os.path.exists(p) else "missing"
-        if known.get(rel) != cur:
+        if rel in known and known.get(rel) != cur:
+            out.append(rel)
+        elif rel not in known and rel in anchors:
             out.append(rel)
     return out
+
+
+def import_closure(anchors):
+    """the anchored files and every module of the package they import, transitively (static `import` / `from ... import`
+    statements): a change in a helper, a constant or a constructor that the anchored code depends on deepens the search
+    just like a change in the anchored file itself"""
+    import ast as _ast
+    pkg = "ocean_science_utilities"
+    src = os.path.join(REPO, "src")
+    seen, todo = [], list(anchors)
+    while todo:
+        rel = todo.pop()
+        if rel in seen:
+            continue
+        seen.append(rel)
+        p = os.path.join(REPO, rel)
+        try:
+            tree = _ast.parse(open(p).read())
+        except (OSError, SyntaxError):
+            continue
+        mods = []
+        for node in _ast.walk(tree):
+            if isinstance(node, _ast.ImportFrom) and node.module and node.level == 0 and node.module.startswith(pkg):
+                mods.append(node.module)
+                mods += [node.module + "." + a.name for a in node.names]
+            elif isinstance(node, _ast.Import):
+                mods += [a.name for a in node.names if a.name.startswith(pkg)]
+        for m in mods:
+            base = os.path.join(src, *m.split("."))
+            for cand in (base + ".py", os.path.join(base, "__init__.py")):
+                if os.path.exists(cand):
+                    r = os.path.relpath(cand, REPO)
+                    if r not in seen:
+                        todo.append(r)
+    return seen
 
 
 class Ctx:
